@@ -298,6 +298,7 @@ INDEPENDENT = {
     "gating": set(ALL_PIDS) - {"C16"},
     "layouts": set(ALL_PIDS) - {"C07", "C09"},
     "u2fprog": set(ALL_PIDS) - {"C08", "C10"},
+    "strhelpers": {"C07", "C08", "C09", "C10", "C11", "C17", "C18", "C19"},
 }
 
 
